@@ -879,6 +879,15 @@ class CallMixin:
                 self.effect("write", site, st, fr, node=recv_id, roots=self.roots(recv_id),
                             idx=None, value=None, how="method:pop", new=new)
                 return out
+        if recv.op in ("Phi", "CondList") and name == "append" and len(pos) == 1 and not kw:
+            # a list that exists in several conditional versions: one conditional list, then the new item
+            pairs = self.cond_pairs(recv)
+            if pairs is not None:
+                new = self.cond_list(pairs + [(None, pos[0])], site)
+                st.cur[recv_id.id] = new
+                self.effect("write", site, st, fr, node=recv_id, roots=self.roots(recv_id),
+                            idx=None, value=pos[0], how="method:append", new=new)
+                return self.const(None)
         if recv.op == "List" and name == "append" and len(pos) == 1:
             new = self.mk("List", recv.args + (pos[0],), None, site)
             st.cur[recv_id.id] = new
@@ -1433,6 +1442,8 @@ class CallMixin:
             if tq in ("typing.Iterable", "collections.abc.Iterable"):
                 return isinstance(v.attr, (str, tuple, bytes))
             return None
+        if v.op == "CondList" and v.attr == "list":
+            v = self.mk("List", (), None, v.site)       # a list whatever it holds
         if v.op in ("Tuple", "List", "Dict"):
             kind = {"Tuple": tuple, "List": list, "Dict": dict}[v.op]
             if tq in BT:
